@@ -84,6 +84,14 @@ class Sequence(compound.CompoundQuery):
         return self.__class__([q.normalize() for q in self.subqueries],
                               self.slop, self.ordered, self.boost)
 
+    def apply(self, fn):
+        return self.__class__([fn(q) for q in self.subqueries], self.slop,
+                              self.ordered, self.boost)
+
+    def simplify(self, ixreader):
+        return self.__class__([q.simplify(ixreader) for q in self.subqueries],
+                              self.slop, self.ordered, self.boost).normalize()
+
     def _and_query(self):
         return compound.And(self.subqueries)
 
